@@ -79,6 +79,7 @@ fn main() {
                 }
             }
         }
+        "c17child" if args.len() >= 5 => props::c17::child(&args[2..]),
         "c09child" if args.len() >= 3 => props::c09::child(&args[2..]),
         "list" => {
             for p in props::ALL {
